@@ -1,5 +1,7 @@
 import UsualProofs.C06.Refine
 import UsualProofs.C06.Url
+import UsualProofs.C06.MDictRt
+import UsualProofs.C06.StrPoolSpec
 /-!
 # C06 — crit-bit tree, strpool and mdict behave as a sorted map of byte strings
 
@@ -83,5 +85,89 @@ theorem urldecode_urlencode_K1_counterexample :
 
 example : LastOk [([], none), ([0x61, 0x20], some [0x26]), ([0x62], none)] := by
   simp [LastOk]
+
+/-! ## strpool -/
+
+/-- **strpool invariant for every operation sequence** (get / incref / decref on live handles,
+strings not ending in a zero byte): `strpool_total` equals the number of distinct live strings
+(`count = |walk|`, and the walk has pairwise different keys), a handle has a positive reference
+count exactly while its string is stored, and handles are never shared by two strings. -/
+theorem strpool_invariant (ops : List SOp) (hk : ∀ op, op ∈ ops → op.keyOk) :
+    let sp := ops.foldl sstep {}
+    sp.count = ((walk sp.tree).length : Int) ∧
+    (walk sp.tree).Pairwise (fun a b => keyLt a.key b.key = true) ∧
+    (∀ id, (∃ n, refOf sp.refs id = some n ∧ 0 < n) ↔ ∃ e, e ∈ walk sp.tree ∧ e.obj = id) := by
+  intro sp
+  have h : SPInv sp := srun_inv ops hk {} spinv_empty
+  refine ⟨h.count, (walk_spec sp.tree h.inv).1, ?_⟩
+  intro id
+  rw [← h.live id]
+  constructor
+  · rintro ⟨n, hn, _⟩; exact ⟨n, hn⟩
+  · rintro ⟨n, hn⟩; exact ⟨n, hn, h.pos id n hn⟩
+
+/-- **Same handle for equal strings until the count reaches zero**: in every reachable state,
+`strpool_get` of a stored string returns the stored handle (and increments its count), while
+`strpool_get` of a string not stored creates a fresh handle with count 1. -/
+theorem strpool_same_handle (ops : List SOp) (hk : ∀ op, op ∈ ops → op.keyOk) (e : Entry) :
+    let sp := ops.foldl sstep {}
+    e ∈ walk sp.tree →
+      (sp.get e.key).2 = some e.obj ∧
+      ∀ n, refOf sp.refs e.obj = some n → refOf (sp.get e.key).1.refs e.obj = some (n + 1) := by
+  intro sp he
+  have h : SPInv sp := srun_inv ops hk {} spinv_empty
+  obtain ⟨a, _, _, d⟩ := get_live sp h e he
+  exact ⟨a, d⟩
+
+/-- dropping the last reference removes exactly that string; other strings keep their handles -/
+theorem strpool_release (ops : List SOp) (hk : ∀ op, op ∈ ops → op.keyOk) (id : Nat) :
+    let sp := ops.foldl sstep {}
+    refOf sp.refs id = some 1 →
+      (sp.decref id).2 = true ∧
+      ∃ e pre post, e.obj = id ∧ walk sp.tree = pre ++ e :: post ∧
+        walk (sp.decref id).1.tree = pre ++ post ∧ refOf (sp.decref id).1.refs id = none := by
+  intro sp hr
+  have h : SPInv sp := srun_inv ops hk {} spinv_empty
+  obtain ⟨a, _, c⟩ := decref_release sp h id hr
+  exact ⟨a, c⟩
+
+example :
+    let sp := [SOp.get [0x61], .get [0x62], .get [0x61], .dec 1, .dec 2].foldl sstep {}
+    sp.count = 1 ∧ refOf sp.refs 1 = some 1 ∧ refOf sp.refs 2 = none := by decide +kernel
+
+/-! ## mdict -/
+
+/-- **`mdict_get` returns the last value put (or url-decoded) for a key**: after putting any
+list of pairs (keys not ending in a zero byte) into the empty dict, every put succeeded and
+`get k` is the value of the last pair with key `k`, absent if there is none. -/
+theorem mdict_get_last_put (ps : List (Key × Val)) (hk : ∀ p, p ∈ ps → NoTrailingZero p.1) (k : Key) :
+    (({} : MDict).putAll ps).2 = true ∧
+    (({} : MDict).putAll ps).1.get k = lastVal ps k := by
+  obtain ⟨a, _, c⟩ := putAll_spec ps {} minv_empty hk
+  refine ⟨a, ?_⟩
+  rw [c k]
+  cases lastVal ps k with
+  | some v => rfl
+  | none => simp [MDict.get, lookup]
+
+/-- put / delete on any dict state satisfying the invariant (which every state reached from the
+empty dict by put, delete and url-decoding does: `put_spec`, `del_spec`, `putAll_spec` preserve
+it) act on `get` exactly like update / erase on a finite map. -/
+theorem mdict_put_del_refine (d : MDict) (h : MInv d) (k : Key) (hk : NoTrailingZero k) (v : Val) :
+    ((d.put k v).2 = true ∧ ∀ k', (d.put k v).1.get k' = if k' = k then some v else d.get k') ∧
+    ((d.del k).2 = (d.get k).isSome ∧ ∀ k', (d.del k).1.get k' = if k' = k then none else d.get k') :=
+  ⟨⟨(put_spec d h k hk v).1, (put_spec d h k hk v).2.2⟩, ⟨(del_spec d h k).1, (del_spec d h k).2.2⟩⟩
+
+/-- **URL round trip (dict level)**: url-encoding a dict and decoding the text into an empty
+dict reproduces exactly its pairs, for every dict except `{"" ↦ NULL}` (K1). -/
+theorem mdict_urlencode_urldecode (d : MDict) (h : MInv d) (hne : d.pairs ≠ [([], none)]) :
+    (({} : MDict).urldecode (urlencode d.pairs)).2 = true ∧
+    (({} : MDict).urldecode (urlencode d.pairs)).1.pairs = d.pairs :=
+  mdict_roundtrip d h hne
+
+example :
+    let d := (({} : MDict).putAll [([0x62], some [0x20, 0x26]), ([], none), ([0x61, 0xff], some [])]).1
+    d.pairs = [([], none), ([0x61, 0xff], some []), ([0x62], some [0x20, 0x26])] ∧
+    (({} : MDict).urldecode (urlencode d.pairs)).1.pairs = d.pairs := by decide +kernel
 
 end UsualProps.C06
